@@ -51,6 +51,11 @@ def cases(tier, seed):
                     yield {'grid': 'B', 'cmax': 1024, 'smax': 16384, 'ts': 1, 'size': 'F+1', 'shape': 'flat', 'source': source,
                            'recep': 'file', 'outcome': outcome, 'entity': entity, 'hist': hist, 'bound': 0, 'seg': None, 'seed': seed,
                            'pre_scu': (len(hist) + len(outcome)) % 2 == 0}
+    # long file sources whose length is an exact multiple of many fragments (block-wise readers)
+    for size in ('16F', '32F'):
+        for source in ('file', 'dataset'):
+            yield {'grid': 'A', 'cmax': 128, 'smax': 4096, 'ts': 0, 'size': size, 'shape': 'flat', 'source': source,
+                   'recep': 'file', 'outcome': 'ok', 'entity': 'ae', 'hist': 'A', 'bound': 0, 'seg': None, 'seed': seed}
     for outcome in ('ok-int', 'warn-int'):
         for entity in ('ae', 'storage-ae'):
             yield {'grid': 'B', 'cmax': 1024, 'smax': 16384, 'ts': 1, 'size': 'F+1', 'shape': 'flat', 'source': 'dataset',
@@ -79,6 +84,9 @@ def cases(tier, seed):
         yield dict(cfg, grid='C', shape='flat', outcome='ok', bound=0, seg=None, seed=seed, cork=True, size='3F+1')
         for seg in (7, 1):
             yield dict(cfg, grid='C', shape='flat', outcome='ok', bound=0, seg=seg, seed=seed)
+        # reads that end 1 and 3 bytes into the header of the next P-DATA-TF (a full-size PDU is limit + 6 bytes on the wire)
+        for extra in (1, 3, 5, 6, 7):
+            yield dict(cfg, grid='C', shape='flat', outcome='ok', bound=0, seg=None, straddle=extra, seed=seed, size='3F+1', cork=True)
     if tier == 'thorough':
         for cfg in cfgs:
             yield dict(cfg, grid='C', shape='flat', outcome='ok', bound=1, seg=7, seed=seed)
@@ -89,7 +97,7 @@ def _dataset(case, inst, variant):
     ts = TS[case['ts']]
     limit = min(case['cmax'], case['smax'])
     F = limit - 6
-    want = {'F-1': F - 1, 'F': F, 'F+1': F + 1, '2F': 2 * F, '3F+1': 3 * F + 1}[case['size']]
+    want = {'F-1': F - 1, 'F': F, 'F+1': F + 1, '2F': 2 * F, '3F+1': 3 * F + 1, '16F': 16 * F, '32F': 32 * F}[case['size']]
     shape = {'flat': 'a', 'seq': 'seq', 'odd': 'b'}[case['shape']]
     seed = case.get('seed', 0) * 7 + variant
     def build(pad):
@@ -184,6 +192,7 @@ def make_scenario(case, tmp):
             ae.add_scp(mem_scp)
         net.listen(('srv', 104), e3.serve_ae(ae))
         net.seg = case['seg']
+        net.straddle = case.get('straddle')
         net.cork = bool(case.get('cork'))
         results['ae'] = ae
         cae = applicationentity.ClientAE('SCU', [TS[i] for i in case.get('client_ts', [case['ts']])], case['cmax']).add_scu(sopclass.storage_scu, [CT])
